@@ -76,7 +76,7 @@ def judge_write(content, w, v, reads, cfgname, hist):
 
 def work_tiny(arg, timeout_ms=3000):
     cfg, manual, mn, mx, contents, hists_by_len, scheds, closefds = arg
-    job = [cfg.line(manual=manual, mn=mn, mx=mx), "read %s" % scheds, "closefds %d" % closefds, "timeout %d" % timeout_ms]
+    job = [cfg.line(manual=manual, mn=mn, mx=mx), "read %s" % scheds, "closemask %d" % closefds, "timeout %d" % timeout_ms]
     meta = []
     for content in contents:
         job.append("content %s" % (content.hex() or "-"))
@@ -270,6 +270,10 @@ def hx(s):
     return s.encode().hex() if s else "-"
 
 
+def zck_out(zargs):
+    return zargs[zargs.index("-o") + 1] if "-o" in zargs else "in.bin.zck"
+
+
 def work_tools(arg):
     items = arg   # (label, zck args, unzck args, input bytes, extra files, closefds)
     job = ["chunk 8", "timeout 30000"]
@@ -278,7 +282,7 @@ def work_tools(arg):
         job.append("file in.bin %s" % (data.hex() or "-"))
         for n, d in extra:
             job.append("file %s %s" % (n, d.hex() or "-"))
-        job.append("case tool=zck args=%s out=in.bin.zck closefds=%d" % (",".join(hx(a) for a in zargs + ["in.bin"]), closefds))
+        job.append("case tool=zck args=%s out=%s closemask=%d" % (",".join(hx(a) for a in zargs + ["in.bin"]), zck_out(zargs), closefds))
     cs = core.drv("tool", "\n".join(job) + "\n", timeout=3000, env_extra=BIG)
     res = {"n": 0, "tr": 0, "multi": 0, "viol": [], "outcomes": set(), "skipped": 0}
     second = []
@@ -301,7 +305,7 @@ def work_tools(arg):
         res["outcomes"].add(("zck", l["exit"]))
         if l["exit"] != "0":
             continue      # an error exit makes no claim
-        f = l.get("f.in.bin.zck", "ABSENT")
+        f = l.get("f." + zck_out(zargs), "ABSENT")
         if f == "ABSENT":
             res["viol"].append((dict(klass, predicate="zck-exit-0-without-output"), "zck %s on %s" % (" ".join(zargs), label), case))
             continue
@@ -326,7 +330,7 @@ def work_tools(arg):
         for (label, zargs, uargs, data, extra, closefds), fb, case, klass in second:
             job.append("clear")
             job.append("file in.bin.zck %s" % fb.hex())
-            job.append("case tool=unzck args=%s out=in.bin closefds=%d" % (",".join(hx(a) for a in uargs + ["in.bin.zck"]), closefds))
+            job.append("case tool=unzck args=%s out=in.bin closemask=%d" % (",".join(hx(a) for a in uargs + ["in.bin.zck"]), closefds))
         cs = core.drv("tool", "\n".join(job) + "\n", timeout=3000, env_extra=BIG)
         for c, ((label, zargs, uargs, data, extra, closefds), fb, case, klass) in zip(cs, second):
             res["tr"] += 1
@@ -339,7 +343,7 @@ def work_tools(arg):
             if l["exit"] != "0":
                 res["viol"].append((dict(klass, predicate="unzck-rejects-zck-output"), "zck %s on %s: unzck exits %s on the produced file" % (" ".join(zargs), label, l["exit"]), case))
                 continue
-            o = l.get("f.in.bin", "ABSENT")
+            o = l.get("stdout", "-") if "-c" in uargs else l.get("f.in.bin", "ABSENT")
             if o == "ABSENT" or core.unhex(o) != data:
                 res["viol"].append((dict(klass, predicate="tools-round-trip-differs"), "zck %s | unzck on %s: output %s" % (
                     " ".join(zargs), label, "absent" if o == "ABSENT" else "%d bytes vs %d" % (len(core.unhex(o)), len(data))), case))
@@ -363,10 +367,17 @@ def tool_items(ctx):
     for data, dn in ((two, "text70k"), (small, "small"), (b"", "empty")):
         for o in base_opts:
             items.append(("opts %s" % dn, o, [], data, [("d.bin", D)], 0))
+    # output name, verbosity (the library then logs to descriptor 2), unzck to standard output
+    for data, dn in ((two, "text70k"), (small, "small"), (b"", "empty")):
+        for o, u in (([], ["-c"]), (["-o", "other.zck"], []), (["-v"], ["-v"]), (["-vv"], ["-vv"]), (["-vvvv"], ["-vvvv"]), (["-v", "-o", "x.zck", "-D", "d.bin"], ["-c", "-v"]),
+                     (["-vvv", "-s", "<text:", "--compression-format", "none"], ["-vvv"]), (["-vvv", "-u", "-m"], ["-vvv", "-c"])):
+            items.append(("opts %s" % dn, o, u, data, [("d.bin", D)], 0))
     # descriptor environments
-    for closefds in (1, 2, 3):
-        for o in ([], ["-D", "d.bin"], ["-s", "<text:"], ["--compression-format", "none"]):
-            items.append(("closefds%d small" % closefds, o, [], small, [("d.bin", D)], closefds))
+    for closefds in (1, 2, 3, 4, 5, 6, 7):     # bit i set: descriptor i is closed when the tool starts
+        for o, u in (([], []), (["-D", "d.bin"], []), (["-s", "<text:"], []), (["--compression-format", "none"], []), (["-o", "y.zck"], []),
+                     (["-v"], ["-v"]), (["-vvv"], ["-vvv"]), (["-vvv", "-D", "d.bin"], ["-vv"]), (["-vv", "--compression-format", "none", "-o", "z.zck"], ["-vvvv"])):
+            for data, dn in ((small, "small"), (two, "text70k")) if (thorough or "-v" in " ".join(o)[:2] or not o) else ((small, "small"),):
+                items.append(("closefds%d %s" % (closefds, dn), o, u, data, [("d.bin", D)], closefds))
     return items
 
 
@@ -384,12 +395,12 @@ def run(ctx):
             for mn, mx in MINMAX:
                 jobs.append((cfg, manual, mn, mx, contents, hbl, "1;3;32768", 0))
     # zck_init_write with closed descriptors
-    for closefds in (1, 2, 3):
+    for closefds in (1, 2, 3, 4, 5, 6, 7):     # bit mask of closed descriptors
         for cfg in (cfgs[0], cfgs[2]):
             jobs.append((cfg, 1, 0, 0, contents[-2:], hbl, "7", closefds))
     nh = sum(len(hbl[len(c)]) for c in contents)
     ctx.bounds = {"A": {"content_lengths": "0..%d" % Lmax, "histories_per_config": nh, "configurations": len(cfgs), "minmax": MINMAX, "chunking": "manual, automatic",
-                        "closed_descriptor_environments": [1, 2, 3]}}
+                        "closed_descriptor_environments": "every subset of {0,1,2} closed"}}
     ctx.rule = ("case = (configuration, content, write history or tool invocation); non-trivial = produced file with >= 2 data chunks")
     tot = {"n": 0, "tr": 0, "multi": 0}
 
